@@ -24,30 +24,46 @@ PTYPES = ["shortest", "fastest", "foremost", "shortest_fastest", "fastest_shorte
 SCALE = 10 ** 6
 
 
-def _labelled(directed, triples, L, rng, nodes, labels):
+def _labelled(directed, triples, L, rng, nodes, labels, labels2=None):
     g = _build(directed, triples, L, random.Random(rng.random()))
     for n in nodes:
-        g.add_node(L.node(n), lab=labels[n])
+        if labels2 is None:
+            g.add_node(L.node(n), lab=labels[n])
+        else:
+            g.add_node(L.node(n), lab=labels[n], lab2=labels2[n])
     return g
 
 
-def _scores(L, r):
-    """{'1.00': {'lab': {n: v}}} -> [[alpha100, n, val]]"""
+PROFILES = {1: ["lab"], 2: ["lab", "lab2", "lab_lab2"]}     # profile names for one label / two labels with profile_size 2
+
+
+def akey(alpha, k):
+    """one integer per (alpha, label profile): alpha * 100 + 1000 * index of the profile"""
+    return int(round(float(alpha) * 100)) + 1000 * k
+
+
+def _scores(L, r, nprof=1):
+    """{'1.00': {'lab': {n: v}}} -> [[alpha key, n, val]]; a profile name the call was not asked for gets index 9"""
     out = []
+    names = PROFILES[nprof]
     for a, prof in r.items():
-        for _p, nv in prof.items():
+        for pn, nv in prof.items():
+            k = names.index(pn) if pn in names else 9
             for n, v in nv.items():
-                out.append([int(round(float(a) * 100)), L.anode(n), int(round(v * SCALE))])
+                out.append([akey(a, k), L.anode(n), int(round(v * SCALE))])
     return out
 
 
-def _dc(g, L, start, delta, ptype):
+def _dc(g, L, start, delta, ptype, nprof=1):
     try:
         with contextlib.redirect_stderr(io.StringIO()):
-            r = al.delta_conformity(g, L.time(start), delta, ALPHAS, ["lab"], path_type=ptype)
+            if nprof == 1:
+                r = al.delta_conformity(g, L.time(start), delta, ALPHAS, ["lab"], path_type=ptype)
+            else:
+                r = al.delta_conformity(g, L.time(start), delta, ALPHAS, ["lab", "lab2"], profile_size=2, path_type=ptype)
         if r is None:
             return "none", []
-        return "ok", _scores(L, r)
+        return "ok", _scores(L, r, nprof)
     except Exception as ex:
         return core.exc_name(ex), []
 
@@ -69,10 +85,15 @@ def job_conf(job):
     one = rng.choice(["z", "z", 0, "", 7, False])
     labels = {n: (rng.choice([vx, vy]) if mode == "mixed" else vx) for n in known}
     ren = {vx: rx, vy: ry}
-    g = _labelled(directed, triples, L, rng, known, labels)
-    gv = _labelled(directed, triples, L, rng, known, {n: ren[v] for n, v in labels.items()})
-    gn = _labelled(directed, triples, L2, rng, known, labels)
-    g1 = _labelled(directed, triples, L, rng, known, {n: one for n in known})
+    # a share of the jobs scores two labels with profile_size 2 (three label profiles per alpha)
+    nprof = 2 if rng.random() < 0.3 else 1
+    l2 = {n: (rng.choice(["p", "q"]) if mode == "mixed" else "p") for n in known} if nprof == 2 else None
+    ren2 = {"p": 5, "q": "five"}
+    g = _labelled(directed, triples, L, rng, known, labels, l2)
+    gv = _labelled(directed, triples, L, rng, known, {n: ren[v] for n, v in labels.items()},
+                   {n: ren2[v] for n, v in l2.items()} if l2 else None)
+    gn = _labelled(directed, triples, L2, rng, known, labels, l2)
+    g1 = _labelled(directed, triples, L, rng, known, {n: one for n in known}, {n: "same" for n in known} if l2 else None)
     def conf_line(tier, trs):
         obs = core.observe(g, L, known, grid)
         combos = [(s, d, p) for s in range(grid[0], grid[1]) for d in range(0, grid[1] - grid[0]) for p in PTYPES]
@@ -85,26 +106,31 @@ def job_conf(job):
             combos = rng.sample(combos, min(len(combos), 40))
         es = []
         for (s, d, p) in combos:
-            res, sc = _dc(g, L, s, d, p)
-            e = {"start": s, "delta": d, "ptype": p, "res": res, "sc": sc, "alphas": [int(a * 100) for a in ALPHAS],
-                 "rv": _dc(gv, L, s, d, p)[1], "rn": _dc(gn, L2, s, d, p)[1], "one": _dc(g1, L, s, d, p)[1]}
+            res, sc = _dc(g, L, s, d, p, nprof)
+            e = {"start": s, "delta": d, "ptype": p, "res": res, "sc": sc,
+                 "alphas": [akey(a, k) for a in ALPHAS for k in range(len(PROFILES[nprof]))], "nprof": nprof,
+                 "rv": _dc(gv, L, s, d, p, nprof)[1], "rn": _dc(gn, L2, s, d, p, nprof)[1], "one": _dc(g1, L, s, d, p, nprof)[1]}
             es.append(e)
         ss = []
         for (d, p) in rng.sample([(d, p) for d in range(0, 3) for p in PTYPES], 0 if mode == "one" else (2 if tier == "quick" else 6)):
             s = {"delta": d, "ptype": p, "sl": [], "per": []}
             try:
                 with contextlib.redirect_stderr(io.StringIO()):   # progress bars
-                    r = al.sliding_delta_conformity(g, d, ALPHAS, ["lab"], path_type=p)
+                    if nprof == 1:
+                        r = al.sliding_delta_conformity(g, d, ALPHAS, ["lab"], path_type=p)
+                    else:
+                        r = al.sliding_delta_conformity(g, d, ALPHAS, ["lab", "lab2"], profile_size=2, path_type=p)
                 s["res"] = "ok"
                 for a, prof in r.items():
-                    for _p, nv in prof.items():
+                    for pn, nv in prof.items():
+                        k = PROFILES[nprof].index(pn) if pn in PROFILES[nprof] else 9
                         for n, seq in nv.items():
                             for (stamp, v) in seq:
-                                s["sl"].append([int(round(float(a) * 100)), L.anode(n), L.atime(stamp), int(round(v * SCALE))])
+                                s["sl"].append([akey(a, k), L.anode(n), L.atime(stamp), int(round(v * SCALE))])
             except Exception as ex:
                 s["res"] = core.exc_name(ex)
             for t in obs["ids"]:
-                res, sc = _dc(g, L, t, d, p)
+                res, sc = _dc(g, L, t, d, p, nprof)
                 s["per"].append({"t": t, "res": res, "sc": sc})
             ss.append(s)
         return {"op": "conf", "fork": False, "res": "ok", "triples": [list(t) for t in trs],
